@@ -562,6 +562,19 @@ func (r *runner) run() {
 	active := lawTargets(r.ps.Targets)
 	o.count("packages", 1)
 	o.count("targets-enumerated", int64(len(active)))
+	// differential oracle ("start from a non-initial state"): what gombok emits for a target
+	// must not depend on the directives it processed before it in the same run
+	solo := map[*target]string{}
+	for _, t := range active {
+		if !t.Solo {
+			continue
+		}
+		if ok, _ := r.generate([]*target{t}); ok {
+			if em, _, err := r.parseDerived(); err == nil && em[t.InstName] != nil {
+				solo[t] = em[t.InstName].src
+			}
+		}
+	}
 	dropAll := func(culprits ...*target) {
 		drop := map[*target]bool{}
 		for _, c := range culprits {
@@ -610,6 +623,15 @@ func (r *runner) run() {
 		if perr != nil {
 			o.report("compile/"+r.ps.Name+"/generated-file-does-not-parse", "the generated file does not parse: %v\n%s", perr, excerpt(src, 60))
 			return
+		}
+		for _, t := range active {
+			if want, ok := solo[t]; ok && em[t.InstName] != nil {
+				o.count("differential-comparisons (alone vs after other directives)", 1)
+				if got := em[t.InstName].src; got != want {
+					o.report("order-dependence/"+t.ID, "%s: the function gombok emits for this directive depends on the directives before it in the same package.\nalone in the package:\n%s\nin this package:\n%s\ninput:\n%s", t.ID, excerpt(want, 40), excerpt(got, 40), r.inputOf(t))
+				}
+				delete(solo, t)
+			}
 		}
 		var calls []lawCall
 		progressed := false
